@@ -701,6 +701,56 @@ zv_harness! {
     body: { complex_vec::<5>(alloc_budget(5)) }
 }
 
+/// Rc / Arc / Box decoders of io::smart_ptr from an arbitrary byte string (fresh context, so every
+/// back-reference marker names an object that was never defined).
+fn smartptr_case<const N: usize>(marker: Option<u8>) {
+    use std::rc::Rc;
+    use std::sync::Arc;
+    let mut data: [u8; N] = vany();
+    if let Some(m) = marker {
+        data[0] = m;
+    }
+    let mut i1 = SliceDataInput::new(&data);
+    let r1 = <Rc<u8> as SerializableType>::deserialize(&mut i1);
+    if data[0] != 1 {
+        assert!(r1.is_err(), "Rc: null / dangling back-reference / unknown marker accepted");
+    }
+    let ok1 = r1.is_ok();
+    forget(r1);
+    let mut i2 = SliceDataInput::new(&data);
+    let r2 = <Arc<u8> as SerializableType>::deserialize(&mut i2);
+    if data[0] != 1 {
+        assert!(r2.is_err(), "Arc: null / dangling back-reference / unknown marker accepted");
+    }
+    forget(r2);
+    let mut i3 = SliceDataInput::new(&data);
+    let r3 = <Box<u8> as SerializableType>::deserialize(&mut i3);
+    forget(r3);
+    assert!(i1.pos() <= N && i2.pos() <= N && i3.pos() <= N);
+    zcover!((data[0] == 2 || marker.map_or(false, |m| m != 2)) && !ok1, "back-reference without a definition (or the concrete marker of the instance) is rejected");
+    zcover!(ok1 || marker.is_some(), "a definition decodes");
+}
+macro_rules! c15_smartptr {
+    ($name:ident, $tier:ident, $unwind:literal, $marker:expr, $what:literal) => {
+        zv_harness! {
+            name: $name,
+            prop: "C15",
+            tier: $tier,
+            unwind: $unwind,
+            stubs: [alloc::fmt::format => crate::common::stubs::fmt_format,
+                    std::hash::RandomState::new => crate::common::stubs::random_state_new],
+            targets: "io::smart_ptr: SerializableType::deserialize for Rc<u8>, Arc<u8>, Box<u8> (SmartPtrSerialize::deserialize_with_context with a fresh DeserializationContext, so any back-reference names an undefined object) over SliceDataInput",
+            bounds: $what,
+            oracle: "no panic / overflow / out-of-bounds (Kani checks); Rc and Arc return Err unless the marker is 1; reader position stays <= 6",
+            body: { smartptr_case::<6>($marker) }
+        }
+    };
+}
+c15_smartptr!(c15_smartptr_backref_n6, quick, 8, Some(2), "every 6-byte string whose first byte is the back-reference marker 2 (any id, any tail)");
+c15_smartptr!(c15_smartptr_null_n6, quick, 8, Some(0), "every 6-byte string whose first byte is the null marker 0");
+c15_smartptr!(c15_smartptr_badmarker_n6, thorough, 8, Some(0x82), "every 6-byte string whose first byte is the unknown marker 0x82");
+c15_smartptr!(c15_smartptr_any_n6, thorough, 8, None, "every byte string of length 6 (incl. the definition branch: DeserializationContext::store_object -> std HashMap insert)");
+
 zv_harness! {
     name: c15_complex_serializer_n12,
     prop: "C15",
@@ -759,6 +809,40 @@ macro_rules! c15_huffman_tree {
         }
     };
 }
+/// A table that announces `count` entries (concrete 2-byte header), first symbol 'A', then arbitrary bytes:
+/// entries cut inside the symbol, the code length or the code bytes.
+fn huffman_tree_hdr<const N: usize>(count: u16) {
+    let mut data: [u8; N] = vany();
+    data[0] = count as u8;
+    data[1] = (count >> 8) as u8;
+    if N > 2 {
+        // concrete first symbol: the std HashMap insert of a decoded entry hashes a concrete key
+        data[2] = 0x41;
+    }
+    let r = HuffmanTree::deserialize(&data);
+    let ok = r.is_ok();
+    forget(r);
+    zcover!(!ok, "some table is rejected");
+}
+macro_rules! c15_huffman_tree_hdr {
+    ($name:ident, $tier:ident, $unwind:literal, $n:literal, $count:literal) => {
+        zv_harness! {
+            name: $name,
+            prop: "C15",
+            tier: $tier,
+            unwind: $unwind,
+            stubs: [alloc::fmt::format => crate::common::stubs::fmt_format,
+                    std::hash::RandomState::new => crate::c15_parsers::random_state_fixed],
+            targets: "HuffmanTree::deserialize: per-entry symbol / code-length / code-byte reads and their truncation checks",
+            bounds: "every byte string of the concrete length N whose 2-byte entry count is the concrete COUNT of the instance and whose first symbol byte is 0x41 (args: N, COUNT); code lengths and code bytes arbitrary; std HashMap keyed with fixed SipHash keys",
+            oracle: "no panic / overflow / out-of-bounds (Kani checks)",
+            body: { huffman_tree_hdr::<$n>($count) }
+        }
+    };
+}
+c15_huffman_tree_hdr!(c15_huffman_tree_hdr_n4_c1, thorough, 12, 4, 1);
+c15_huffman_tree_hdr!(c15_huffman_tree_hdr_n5_c1, thorough, 12, 5, 1);
+c15_huffman_tree_hdr!(c15_huffman_tree_hdr_n6_c1, thorough, 20, 6, 1);
 c15_huffman_tree!(c15_huffman_tree_n1, quick, 4, 1);
 c15_huffman_tree!(c15_huffman_tree_n4, thorough, 12, 4);
 c15_huffman_tree!(c15_huffman_tree_n5, thorough, 12, 5);
